@@ -5,7 +5,16 @@ The residue tables of periodictable/fasta.py are *data written as Python calls*
 `_("R", "AG", "purine")`, ...).  This module reads them from the module's
 **source text** with `ast` (literal arguments only) and never calls
 `fasta.Molecule`, `fasta.Sequence`, `fasta._code_average`, the formula parser
-or `Formula` arithmetic.  From the literals it computes, in exact rational
+or `Formula` arithmetic.  Source text is a private matter of the library: when
+it is not written the way this reader expects (row builders renamed, tables
+built another way) the model is built from the PUBLIC in-memory tables instead
+(`fasta.AMINO_ACID_CODES`, `RNA_BASES`, `DNA_BASES`, `RNA_CODES`, `DNA_CODES`,
+`CODE_TABLES`): each unambiguous residue is the table entry (atoms of its
+labile formula, cell volume, charge), each ambiguity code is averaged HERE over
+the residues IUPAC says it stands for.  `FastaRef.route` / `.route_note` say
+which route was used.  That route is still independent of `Sequence`,
+`_code_average`, the prefix dispatch and the FASTA readers, which are what the
+property is about.  From the rows it computes, in exact rational
 arithmetic:
 
 * per code: atom counts of the labile formula (keys (Z, A, 0)), cell volume,
@@ -113,7 +122,9 @@ class FastaRef(object):
     """residue[type][code] = (atoms {key: Fraction}, volume Fraction, charge Fraction);
     stands_for[type][code] = string of base codes (ambiguity rows) or the code itself."""
 
-    def __init__(self, source=None, mass_model=None):
+    def __init__(self, source=None, mass_model=None, route=None):
+        """route: None = the source text when it is readable in the expected form, else the module's public
+        data tables; 'source' / 'data' force one route (RefError when it is not available)."""
         from periodictable import fasta, constants
         if mass_model is None:
             from .masses import MassModel
@@ -121,13 +132,101 @@ class FastaRef(object):
         self.mm = mass_model
         self.NA = constants.avogadro_number
         self.symbols = {sym: z for z, sym in mass_model.symbol.items()}
-        if source is None:
-            with open(fasta.__file__.replace('.pyc', '.py')) as fid:
-                source = fid.read()
+        self.route = None
+        self.route_note = ''
+        if route in (None, 'source'):
+            try:
+                if source is None:
+                    with open(fasta.__file__.replace('.pyc', '.py')) as fid:
+                        source = fid.read()
+                self.source_rows = {}
+                self.nonliteral_averages = []
+                self._read(ast.parse(source))
+                self._build()
+                self.route = 'source'
+                self.route_note = ('residue rows read from the source text of fasta.py (literal arguments of the '
+                                   'row-builder calls)')
+            except Exception as exc:  # the source is not written the way this reader expects (refactored?)
+                if route == 'source':
+                    raise
+                self.route_note = 'source-text route not available (%s: %s); ' % (type(exc).__name__, str(exc)[:160])
+        if self.route is None:
+            self._build_from_data(fasta)
+            self.route = 'data'
+            self.route_note += ('residues taken from the public module tables fasta.AMINO_ACID_CODES / RNA_BASES / '
+                                'DNA_BASES (labile_formula.atoms, cell_volume, charge of each entry); ambiguity codes '
+                                'averaged here over what IUPAC says they stand for; code sets from fasta.CODE_TABLES')
+
+    # -- the public data tables (fallback route) ------------------------------
+    def _molecule_entry(self, mol):
+        """(atoms {key: Fraction}, volume, charge) of a table entry, through its public attributes."""
+        from .. import atoms as A
+        atoms = {}
+        for a, n in mol.labile_formula.atoms.items():
+            k = tuple(A.key(a))
+            atoms[k] = atoms.get(k, 0) + (Fraction(n) if isinstance(n, int) else Fraction(repr(float(n))))
+        return atoms, Fraction(repr(float(mol.cell_volume))), Fraction(repr(float(mol.charge)))
+
+    def _build_from_data(self, fasta):
+        """The same model from the in-memory tables.  Independent of Sequence / _code_average / the
+        prefix dispatch (the mechanisms the property is about); an unambiguous residue row is the table
+        entry itself, every ambiguity row is recomputed here as the equal-weight mean of base entries."""
         self.source_rows = {}
         self.nonliteral_averages = []
-        self._read(ast.parse(source))
-        self._build()
+        self.tables, self.averages = {}, []
+        try:
+            aa_live, rna_b, dna_b = fasta.AMINO_ACID_CODES, fasta.RNA_BASES, fasta.DNA_BASES
+            rna_c, dna_c, code_tables = fasta.RNA_CODES, fasta.DNA_CODES, fasta.CODE_TABLES
+        except AttributeError as exc:
+            raise RefError('public fasta table missing: %s' % exc) from exc
+        aa, aa_for = {}, {}
+        for code, mol in aa_live.items():
+            if code not in IUPAC['aa']:
+                aa[code] = self._molecule_entry(mol)
+                aa_for[code] = code
+        for code in aa_live:
+            if code in IUPAC['aa']:
+                members = IUPAC['aa'][code]
+                if any(c not in aa for c in members):
+                    raise RefError('amino-acid code %r stands for %r, not all of which are residue rows' % (code, members))
+                aa[code] = self._average([aa[c] for c in members])
+                aa_for[code] = members
+                self.averages.append((code, members))
+        bases = {'rna': {c: self._molecule_entry(m) for c, m in rna_b.items()},
+                 'dna': {c: self._molecule_entry(m) for c, m in dna_b.items()}}
+        na = {'rna': {}, 'dna': {}}
+        na_for = {'rna': {}, 'dna': {}}
+        for typ, live in (('rna', rna_c), ('dna', dna_c)):
+            for code, mol in live.items():
+                members = IUPAC['na'].get(code)
+                if members is None:          # a code IUPAC does not define: a row of its own
+                    na[typ][code] = self._molecule_entry(mol)
+                    na_for[typ][code] = code
+                    continue
+                if any(b not in bases[typ] for b in members):
+                    raise RefError('%s code %r stands for %r, not all of which are base rows' % (typ, code, members))
+                na[typ][code] = self._average([bases[typ][b] for b in members])
+                na_for[typ][code] = members
+        by_table = [(aa_live, ('aa', aa, aa_for), 'AMINO_ACID_CODES'), (rna_c, ('rna', na['rna'], na_for['rna']), 'RNA_CODES'),
+                    (dna_c, ('dna', na['dna'], na_for['dna']), 'DNA_CODES')]
+        self.residue, self.stands_for, self.family, self.code_table_names = {}, {}, {}, {}
+        for typ, table in code_tables.items():
+            for live, (fam, res, sf), name in by_table:
+                if table is live:
+                    self.residue[typ], self.stands_for[typ], self.family[typ] = res, sf, fam
+                    self.code_table_names[typ] = name
+                    break
+            else:
+                raise RefError('CODE_TABLES[%r] is not one of the three public code tables' % (typ,))
+        self.bases = {'aa': {c: aa[c] for c in aa if aa_for[c] == c}, 'rna': bases['rna'], 'dna': bases['dna']}
+        self.other = {}
+        for name in ('NUCLEIC_ACID_COMPONENTS', 'CARBOHYDRATE_RESIDUES', 'LIPIDS'):
+            self.other[name] = {}
+            for mname, mol in (getattr(fasta, name, None) or {}).items():
+                try:
+                    self.other[name][mname] = self._molecule_entry(mol)
+                except Exception:  # observation-only tables
+                    pass
 
     # -- reading the source -------------------------------------------------
     def _read(self, tree):
